@@ -280,9 +280,20 @@ func cmdCheck(args []string) int {
 		fmt.Println("workdir:", workdir)
 	}
 	solveAll(workdir, frs, pick, *timeout, *par)
+	known := loadKnown(filepath.Join(*verif, "known_findings.txt"))
+	isKnown := func(o *Obligation) *knownFinding {
+		for i := range known {
+			k := &known[i]
+			if k.Kind == "known" && k.Property == *prop && k.Obligation == stableName(o.Name) {
+				return k
+			}
+		}
+		return nil
+	}
 	// second chance with a three times longer timeout for whatever is still undecided (solver run-time varies with
 	// load; an undecided obligation must not become an alarm because the machine was busy)
-	retry := func(o *Obligation) bool { return pick(o) && o.Expect == "unsat" && o.Status == "undecided" }
+	// (obligations recorded as known findings are expected to fail and are not retried)
+	retry := func(o *Obligation) bool { return pick(o) && o.Expect == "unsat" && o.Status == "undecided" && isKnown(o) == nil }
 	nretry := 0
 	for _, fr := range frs {
 		for _, o := range fr.Obligations {
@@ -295,16 +306,6 @@ func cmdCheck(args []string) int {
 		solveAll(workdir, frs, retry, *timeout*3, 3)
 	}
 
-	known := loadKnown(filepath.Join(*verif, "known_findings.txt"))
-	isKnown := func(o *Obligation) *knownFinding {
-		for i := range known {
-			k := &known[i]
-			if k.Kind == "known" && k.Property == *prop && k.Obligation == stableName(o.Name) {
-				return k
-			}
-		}
-		return nil
-	}
 	// baseline
 	basePath := filepath.Join(*verif, "baseline", *prop+".json")
 	var baseline []string
